@@ -39,6 +39,7 @@ def private_configs(tier):
     add("n13a3k2t9-rw", lambda: _mk(13, 20, 4, 3, 2, 9, 9, (4.0, -0.5, -2.0)), 12, time_limit=9)   # uneven split 5/4/4, other rewards
     add("n10a2k2-m4t9", lambda: _mk(10, 14, 3, 2, 2, 4, 9), 11, time_limit=9)      # route array shorter than the episode
     add("n5a1k2-m6t6", lambda: _mk(5, 6, 2, 1, 2, 6, 6), 8, time_limit=6)          # single agent
+    add("n16a4k2-t8", lambda: _mk(16, 26, 4, 4, 2, 8, 8), 10, time_limit=8)       # 4 agents: 3-/4-way and double 2-way ties
     if not q:
         add("n10a2k2-m12t5", lambda: _mk(10, 14, 3, 2, 2, 12, 5), 7, time_limit=5)     # route array longer
         add("n8a2k3-dense", lambda: _mk(8, 20, 7, 2, 3, 10, 10, (1.0, 0.0, -0.25)), 12, time_limit=10)
@@ -290,6 +291,150 @@ def all_in_tree_after(n, start, wd):
     return set([start] + [int(x) for x in wd]) >= set(range(n))
 
 
+# ---------------------------------------------------------------- contested joint actions (tie-break, C06)
+def synth_contests(kit, s0, A, N, M, want):
+    """States built directly from a reset state: k = min(A, deg(u)) agents are put on distinct neighbours of a utility node u
+    (route index set / route array / active edges / mask made consistent), so that k agents can legally take u at once."""
+    adj = np.asarray(s0.adj_matrix)
+    types = np.asarray(s0.node_types)
+    base = np.asarray(s0.node_edges)[0]
+    out = []
+    utils_ = [u for u in range(N) if types[u] == -1 and adj[u].sum() >= 2]
+    utils_.sort(key=lambda u: -int(adj[u].sum()))
+    for u in utils_[:want]:
+        nb = [int(v) for v in np.where(adj[u] == 1)[0]]
+        kit.rng.shuffle(nb)
+        agents = [int(a) for a in kit.rng.permutation(A)]
+        k = min(A, len(nb))
+        pos = np.asarray(s0.positions).copy()
+        cidx = np.asarray(s0.connected_nodes_index).copy()
+        conn = np.asarray(s0.connected_nodes).copy()
+        pidx = np.asarray(s0.position_index).copy()
+        for i in range(k):
+            a, v = agents[i], nb[i]
+            if v == pos[a]:
+                continue
+            pos[a] = v
+            cidx[a, v] = v
+            pidx[a] = 1
+            if M > 1:
+                conn[a, 1] = v
+        edges = np.repeat(base[None], A, 0).copy()
+        for a in range(A):               # utility nodes in a route are closed for the other agents
+            for v in np.where(cidx[a] != -1)[0]:
+                if types[v] == -1:
+                    for b in range(A):
+                        if b != a:
+                            edges[b][edges[b] == v] = -1
+        mask = np.stack([edges[a, pos[a]] != -1 for a in range(A)])
+        out.append((u, s0.replace(positions=pos, connected_nodes_index=cidx, connected_nodes=conn, position_index=pidx,
+                                  node_edges=edges, action_mask=mask, step_count=np.asarray(1, np.asarray(s0.step_count).dtype))))
+    return out
+
+
+def contested_actions(mask, pos, types, A, N, rng, cap=12):
+    """joint actions in which several agents aim at the same legal node: every agent that may take the most demanded utility
+    node takes it; all pairs / triples of agents sharing a legal target; (4 agents) two simultaneous 2-way ties.
+    The other agents play their own position (illegal: they stay).  -> [(action, [(node, [agents])...])]"""
+    import itertools
+    acts, seen = [], set()
+
+    def add(groups):
+        a = list(pos)
+        for node, ags in groups:
+            for g in ags:
+                a[g] = node
+        if tuple(a) not in seen:
+            seen.add(tuple(a))
+            acts.append((a, groups))
+    demand = mask.sum(0)
+    order = sorted(range(N), key=lambda j: (-(int(demand[j]) if types[j] == -1 else 0), -int(demand[j])))
+    shared = [j for j in order if demand[j] >= 2]
+    for j in shared[:3]:
+        ags = [int(a) for a in np.where(mask[:, j])[0]]
+        add([(j, ags)])
+        for r in (2, 3):
+            for sub in itertools.combinations(ags, r):
+                if len(sub) < len(ags):
+                    add([(j, list(sub))])
+    for j1, j2 in itertools.combinations(shared[:4], 2):       # two simultaneous ties on different nodes
+        a1 = [int(a) for a in np.where(mask[:, j1])[0]]
+        a2 = [int(a) for a in np.where(mask[:, j2])[0] if a not in a1[:2]]
+        if len(a1) >= 2 and len(a2) >= 2:
+            add([(j1, a1[:2]), (j2, a2[:2])])
+    return acts[:cap]
+
+
+def contest(kit, cfg, env, ec, lay, states, calls, metas, nkeys=16):
+    """real env.step under vmap over nkeys different state.key values (all tie-break permutations) x contested joint actions;
+    each distinct (action, permutation) is replayed in the model, all successors go through the verified checkers, and for a
+    utility node the winner must be the first contender of the recovered permutation and the only agent that enters it."""
+    import jax
+    import jax.numpy as jnp
+    A, N, K, M, T = dims(env)
+    fkey = ("contest", cfg["label"])
+    if fkey not in _JIT:
+        def f(s, key, action):
+            s2, ts2 = env.step(s.replace(key=key), action)
+            return s2, ts2.replace(extras={})
+        _JIT[fkey] = (jax.jit(jax.vmap(f, in_axes=(None, 0, 0))),
+                      jax.jit(jax.vmap(lambda k: jax.random.permutation(jax.random.split(k)[1], jnp.arange(A)))))
+    vstep, perm_of = _JIT[fkey]
+    res = kit.res["C06"]
+    for si, (tag, s) in enumerate(states):
+        mask, pos, types = np.asarray(s.action_mask), ints(s.positions), np.asarray(s.node_types)
+        acts = contested_actions(mask, pos, types, A, N, kit.rng)
+        if not acts:
+            continue
+        keys = jax.random.split(jax.random.PRNGKey(kit.seed * 31 + si * 7 + hash(cfg["label"]) % 1000), nkeys)
+        perms = np.asarray(perm_of(keys))
+        KK = jnp.concatenate([keys] * len(acts), 0)
+        AA = jnp.asarray(np.repeat(np.asarray([a for a, _ in acts], np.int32), nkeys, 0))
+        sj = jax.tree_util.tree_map(jnp.asarray, s)
+        s3, ts3 = jax.tree_util.tree_map(np.asarray, vstep(sj, KK, AA))
+        es = enc_state(s)
+        for ai, (aq, groups) in enumerate(acts):
+            size = max(len(g) for _, g in groups)
+            res.count("%d-way-tie%s" % (size, "+double" if len(groups) > 1 else ""), nkeys)
+            first = {}
+            for ki in range(nkeys):
+                q = ai * nkeys + ki
+                perm = tuple(int(x) for x in perms[ki])
+                if perm not in first:
+                    s3q, ts3q = envkit.R.slice_tree(s3, q), envkit.R.slice_tree(ts3, q)
+                where = dict(cfg=cfg["label"], p="contest", b="%s%d" % (tag, si), t=ai)
+                res.evaluations += 1
+                res.distinct.add((cfg["label"], tag, si, ai, perm))
+                # independent rule: one winner per contested utility node = the first contender in the permutation
+                for node, ags in groups:
+                    if types[node] != -1:
+                        continue
+                    winner = [g for g in perm if g in ags][0]
+                    inside = [g for g in range(A) if int(s3.positions[q, g]) == node]
+                    if inside != [winner]:
+                        kit.fail(["C06"], "tie on a utility node: agents %s entered it, expected only the first contender %d of the permutation" % (inside, winner),
+                                 dict(cfg=cfg["label"], op="tie-break-exclusive"),
+                                 dict(where, node=node, contenders=ags, perm=list(perm), action=aq, key=ints(keys[ki]), state=describe(s), seed=kit.seed))
+                if perm in first:        # same permutation -> same successor (the key itself is not compared)
+                    q0 = first[perm]
+                    same = all(np.array_equal(getattr(s3, f)[q], getattr(s3, f)[q0]) for f in
+                               ("connected_nodes", "connected_nodes_index", "node_edges", "positions", "position_index", "action_mask", "finished_agents", "step_count"))
+                    same = same and float(ts3.reward[q]) == float(ts3.reward[q0]) and int(ts3.step_type[q]) == int(ts3.step_type[q0]) \
+                        and np.array_equal(ts3.observation.node_types[q], ts3.observation.node_types[q0])
+                    if not same:
+                        kit.fail(["C09"], "two keys with the same tie-break permutation give different successors", dict(cfg=cfg["label"], op="perm-determines-step"),
+                                 dict(where, perm=list(perm), action=aq, seed=kit.seed))
+                    continue
+                enc = enc_dyn(s3q) + enc_ts(ts3q) + ints(ts3q.observation.node_types)
+                first[perm] = q
+                calls.append(("mmst_step_io", ec + es + ints(aq) + list(perm)))
+                metas.append(("step", lay, enc, dict(where, action=ints(aq), perm=list(perm), illegal=True, live=True, contest=True,
+                                                    key=ints(keys[ki]), state=describe(s))))
+                calls.append(("mmst_check_io", ec + enc_state(s3q) + ints(s3q.finished_agents)))
+                metas.append(("check", None, None, dict(where, t="%d/%s" % (ai, "".join(map(str, perm))), live=True, action=ints(aq), perm=list(perm),
+                                                        key=ints(keys[ki]), skip=(["route_connected"] if tag == "synth" else []), state=describe(s3q))))
+
+
 # ---------------------------------------------------------------- main analysis
 def analyze(kit):
     import jax
@@ -444,6 +589,25 @@ def analyze(kit):
                             if not ok:
                                 kit.fail(["C04", "C05"] if not mask[i, j] else ["C04"], "env's reaction contradicts the mask (masked-in move refused or masked-out move executed)",
                                          dict(cfg=cfg["label"], op="mask-reaction"), dict(where, agent=i, node=j, mask=bool(mask[i, j]), state=describe(s), seed=kit.seed))
+        # ---- contested joint actions over many keys (>= 2 agents; 3-/4-way ties need >= 3 agents)
+        if A >= 2:
+            cands = []
+            for p in (0.0, 0.35):
+                _, st, ts, ac, fl, k0 = kit.roll(cfg, p)
+                for b in range(ac.shape[0]):
+                    for t in range(min(ac.shape[1], int(fl[b]))):
+                        m_ = np.asarray(st.action_mask[b, t])
+                        d_ = int(m_.sum(0).max())
+                        if d_ >= 2:
+                            cands.append((d_ + kit.rng.random(), p, b, t))
+            cands.sort(reverse=True)
+            nv = (4 if A >= 3 else 2) if kit.tier == "quick" else 20
+            states = [("visited", R.slice_tree(kit.roll(cfg, p)[1], b, t)) for _, p, b, t in cands[:nv]]
+            if A >= 3:
+                _, st, ts, ac, fl, k0 = kit.roll(cfg, 0.0)
+                for b in range(min(ac.shape[0], 2 if kit.tier == "quick" else 8)):
+                    states += [("synth", x) for _, x in synth_contests(kit, R.slice_tree(st, b, 0), A, N, M, 2)]
+            contest(kit, cfg, env, ec, lay, states, calls, metas)
         _t1 = _t.time()
         # ---- generator over explicit draws
         if cfg["label"] in ("n12a2t7", "n13a3k2t9-rw") or (kit.tier != "quick" and cfg["label"] in ("default-t12", "n5a1k2-m6t6", "n8a2k3-dense", "n24a4k3-t30")):
@@ -475,6 +639,8 @@ def analyze(kit):
                          dict(cfg=m["cfg"], op="corr-" + kind, fields=",".join(bad)), dict(m, seed=kit.seed))
         elif kind == "check":
             for nm, v in zip(names, got):
+                if nm in m.get("skip", ()):
+                    continue
                 for pid in pid_of[nm]:
                     kit.res[pid].evaluations += 1
                     kit.res[pid].distinct.add((m["cfg"], m["p"], m["b"], m["t"], nm))
